@@ -66,7 +66,7 @@ import (
 
 const (
 	c14ProtoA = protocol.ConsensusVersion("verif-c14-A") // CatchpointLookback 4, no state proofs
-	c14ProtoB = protocol.ConsensusVersion("verif-c14-B") // CatchpointLookback 6, state proofs every 8 rounds (never produced => stall)
+	c14ProtoB = protocol.ConsensusVersion("verif-c14-B") // CatchpointLookback 6, state proofs every 4 rounds (never produced => stall)
 
 	c14CatchpointInterval = 4
 )
@@ -91,9 +91,12 @@ func c14RegisterProtos() {
 		b := a
 		b.ApprovedUpgrades = map[protocol.ConsensusVersion]uint64{}
 		b.CatchpointLookback = 6
-		b.StateProofInterval = 8
+		// state proofs every 4 rounds, never produced: the voters tracker pins the online history
+		// at round 2 (first state proof round 8 - interval - voters lookback), i.e. below the
+		// MaxBalLookback horizon of every first stage from accounts round 10 on, so that the
+		// "history held back" branch of finishFirstStage (onlineExcludeBefore) is exercised.
+		b.StateProofInterval = 4
 		b.StateProofVotersLookback = 2
-		b.StateProofMaxRecoveryIntervals = 2
 		config.Consensus[c14ProtoB] = b
 
 		// MakeLabel logs through logging.Base() at Info level; keep the test output readable.
@@ -447,26 +450,34 @@ func (n *c14Node) addBatch(blks []bookkeeping.Block, flush bool) error {
 // Returns false when there was nothing to commit.
 func (n *c14Node) crashCommit() (bool, error) {
 	l := n.l
+	// The voters tracker loads its trees in background goroutines that read through
+	// onlineAccounts; a reader that finds the database ahead of the in-memory round waits for
+	// postCommit, which never comes after a crash (in a real crash the process is gone, here
+	// the restart would wait for that goroutine forever). Let them finish first.
+	l.acctsOnline.voters.loadWaitGroup.Wait()
 	rnd, _ := l.LatestCommitted()
-	l.trackerMu.Lock()
-	defer l.trackerMu.Unlock()
 	tr := &l.trackers
+	dcc := &deferredCommitContext{}
+	// what notifyCommit -> trackerRegistry.committedUpTo -> scheduleCommit would do now
+	l.trackerMu.Lock()
 	maxLookback := basics.Round(0)
 	for _, lt := range tr.trackers {
 		if _, lookback := lt.committedUpTo(rnd); lookback > maxLookback {
 			maxLookback = lookback
 		}
 	}
-	dcc := &deferredCommitContext{deferredCommitRange: deferredCommitRange{lookback: maxLookback}}
+	dcc.deferredCommitRange = deferredCommitRange{lookback: maxLookback}
 	was := n.probe.block.Swap(false)
 	tr.mu.RLock()
 	cdr := tr.produceCommittingTask(rnd, tr.dbRound, &dcc.deferredCommitRange)
 	tr.mu.RUnlock()
 	n.probe.block.Store(was)
+	l.trackerMu.Unlock()
 	if cdr == nil || cdr.offset == 0 {
 		return false, nil
 	}
 	dcc.deferredCommitRange = *cdr
+	// first half of trackerRegistry.commitRound (runs on the commit syncer, without trackerMu)
 	dcc.flushTime = time.Now()
 	newBase := dcc.newBase()
 	tr.mu.RLock()
@@ -477,7 +488,9 @@ func (n *c14Node) crashCommit() (bool, error) {
 		}
 	}
 	tr.mu.RUnlock()
-	err := tr.dbs.Transaction(func(ctx context.Context, tx trackerdb.TransactionScope) error {
+	// (same retry discipline as the real commitRound: a retried transaction must first drop the
+	// in-memory trie changes of the failed attempt)
+	err := tr.dbs.TransactionWithRetryClearFn(func(ctx context.Context, tx trackerdb.TransactionScope) error {
 		aw, err := tx.MakeAccountsWriter()
 		if err != nil {
 			return err
@@ -488,6 +501,12 @@ func (n *c14Node) crashCommit() (bool, error) {
 			}
 		}
 		return aw.UpdateAccountsRound(newBase)
+	}, func(ctx context.Context) {
+		for _, lt := range tr.trackers {
+			if lt, ok := lt.(trackerCommitLifetimeHandlers); ok {
+				lt.clearCommitRoundRetry(ctx, dcc)
+			}
+		}
 	})
 	if err != nil {
 		return false, fmt.Errorf("commit transaction: %v", err)
